@@ -4,6 +4,7 @@
      arr <code> <pre 0/1> <sz> <scalar> | r.. | x.. | y..  -> result list or UB
      dot <sz> | a.. | b..                                    -> result or UB
      xop <p> <k> <f> <code> a b c   -> Extension<> operation of ExtModel.v on p-adic operands (stateless)
+     xinv <p> <k> <f> <0|1> a b     -> Extension<> inv a (0) / div a b (1) of ExtModel.v (Poly1Dom::invmod); -1 = no answer
      gf2 <code> <bitref 0/1> a b c  -> GF2 operation of GF2Model.v (stateless)
      qinit <p> <k> <f> <bits> <d>   -> GFqExtFast::init(double) of QadicModel.v: p-adic value of the decoded element (stateless)
      qmaxn <num> <p> <k>            -> num/(p-1)/(p-1)/k
@@ -35,6 +36,7 @@ let () = run_lines (fun toks ->
       (hash l2p) (hash p2l) (hash pl1) (if ok then "1" else "0") (if fg then "1" else "0")
       (if q <= 1024 then " T " ^ show l2p ^ " | " ^ show p2l ^ " | " ^ show pl1 else "")
   | ["xop"; p; k; f; c; a; b; d] -> string_of_z (Model.ext_opZ (zs p) (zs k) (zs f) (zs c) (zs a) (zs b) (zs d))
+  | ["xinv"; p; k; f; dodiv; a; b] -> string_of_z (Model.ext_invZ (zs p) (zs k) (zs f) (zs dodiv) (zs a) (zs b))
   | ["gf2"; c; r; a; b; d] -> string_of_z (Model.gf2_opZ (zs c) (zs r) (zs a) (zs b) (zs d))
   | ["qinit"; p; k; f; bits; d] -> string_of_z (Model.q_initZ (zs p) (zs k) (zs f) (zs bits) (zs d))
   | ["qmaxn"; n; p; k] -> string_of_z (Model.q_maxn (zs n) (zs p) (zs k))
